@@ -261,8 +261,9 @@ def arm_kind_targets(F, body, loop):
             names = [v["name"] for v in a["variants"]]
             with_pattern = [v["name"] for v in a["variants"] if any(f[1] == "mech_core::nodes::Pattern" for f in v["fields"])]
     out = {}
+    per_switch = {}
     if names is None:
-        return out, with_pattern
+        return out, with_pattern, per_switch
     region = loop.region()
     for x in sorted(region):
         t = body.blocks[x]["t"]
@@ -279,7 +280,8 @@ def arm_kind_targets(F, body, loop):
             tgt = listed.get(i, t.get("else"))
             if tgt is not None and body.succ(tgt) or tgt in body.ret_blocks():
                 out.setdefault(nm, set()).add(tgt)
-    return out, with_pattern
+                per_switch.setdefault(x, {}).setdefault(tgt, []).append(nm)
+    return out, with_pattern, per_switch
 
 
 def run(F, rep, tier):
@@ -373,24 +375,9 @@ def run(F, rep, tier):
         # ---- matcher sites inside the arm loop (virtually inlined)
         sites = sorted(sites_in_loop(clo, MATCHER_RX, G, L), key=lambda x: x.order)
         rep.check(len(sites) >= 1, "C17-R2", "execute_fsm_pipe_impl:matcher-called", "execute_fsm_pipe_impl: the arm loop does not call the pattern matcher")
-        envs = {}
         for s in sites:
-            var = arm_variant(F, clo, s, G)
-            s.key = ("FsmArm" + var) if var else "arm"
-            fr = fresh_env(clo, s, G, L)
-            s.fresh = fr
-            # one environment object per distinct canonical place at the outermost view
-            top = [v for v in s.views if v[2] is not None]
-            envs.setdefault((top[-1][0], top[-1][2]) if top else (s.fn, None), []).append(s)
-        for n, (k, ss) in enumerate(sorted(envs.items(), key=lambda kv: min(x.order for x in kv[1])), 1):
-            frs = {x.fresh for x in ss}
-            if frs == {"undecided"}:
-                rep.note("undecided", {"rule": "C17-R2", "what": "env-fresh-per-arm", "why": "the arm environment is assigned on some paths only"})
-                continue
-            ok = "no" not in frs
-            rep.check(ok, "C17-R2", "execute_fsm_pipe_impl:env-fresh-per-arm#%d" % n if ok else "execute_fsm_pipe_impl:env-fresh-per-arm",
-                      "execute_fsm_pipe_impl: the environment that the pattern matcher fills is not created inside the arm loop: bindings made while testing one arm leak into the test of the "
-                      "next arm (a later arm that should be the first match can be rejected)", sample={"fn": "execute_fsm_pipe_impl", "matchers": sorted({x.matcher for x in ss})})
+            s.fresh = fresh_env(clo, s, G, L)
+            s.cleared = cleared_before(clo, s)
         # ---- the transition applications in the arm loop and how the loop is left
         must, may = apply_sum.blocks(gb)
         applied_in_trial = set()        # transition applications reached while an arm is being tried (the natural loop excludes blocks that can only leave it)
@@ -403,72 +390,103 @@ def run(F, rep, tier):
         rets = set(gb.ret_blocks())
         after = {x for x in gb.reachable_from([it["none"]], avoid=outer_heads | {L.header}) if gb.succ(x) or x in rets}
         leave = (after | okw | outer_heads) - (err if ML.returns_result(gb) else set())
+        # obligations are stated per KIND of arm (the enum's variants that carry a pattern), not per copy of the code: whether the two kinds share one code path
+        # (merged arms, shared helper) or have a copy each does not change what is checked, so it must not change the count either
+        kinds, with_pattern, per_switch = arm_kind_targets(F, gb, L)
         exits = {}
         again = set()
+        OUT = (-1, None)
 
         def enter(b, u):
-            # u: -1 not inside an arm trial; 0 no transition applied yet in this trial; 1 maybe (helper applies on some paths); 2 applied
+            # u = (a, kind): a = -1 not inside an arm trial; 0 no transition applied yet in this trial; 1 maybe (helper applies on some paths); 2 applied
             if b == L.header:
-                return 0
-            if u < 0:
+                return (0, None)
+            a, kd = u
+            if a < 0:
                 return u
             if b in err and ML.returns_result(gb):
-                return -1
+                return OUT
             if b in must:
                 applied_in_trial.add(b)
-                return 2
+                return (2, kd)
             if b in may:
                 applied_in_trial.add(b)
-                return max(u, 1)
+                return (max(a, 1), kd)
             return u
 
         def on_edge(s_, d_, u):
-            if u < 0:
+            a, kd = u
+            if a < 0:
                 return None
             if (s_, d_) == exhaust:
-                return -1
+                return OUT
             if d_ == L.header:
                 if s_ in L.nodes:
-                    again.add(u)
+                    again.add(a)
                 return None
             if d_ in leave:
-                exits.setdefault(d_, set()).add(u)
-                return -1
+                exits.setdefault((kd, "value" if d_ in okw else "next-step"), set()).add(a)
+                return OUT
+            if s_ in per_switch and d_ in per_switch[s_]:
+                nk = tuple(sorted(per_switch[s_][d_]))
+                if kd is not None:
+                    nk = tuple(x for x in nk if x in kd) or nk
+                return (a, nk)
             return None
-        complete = ML.explore(gb, enter, on_edge, init_user=-1)
+        complete = ML.explore(gb, enter, on_edge, init_user=OUT)
         if not complete:
             rep.note("undecided", {"rule": "C17-R5", "what": "arm loop exits", "why": "state budget exhausted"})
         rep.check(bool(applied_in_trial), "C17-R1", "execute_fsm_pipe_impl:success-branch", "execute_fsm_pipe_impl: no transition is applied (apply_transitions) while the arms are tried")
         rep.check(2 not in again, "C17-R1", "execute_fsm_pipe_impl:first-match-exits",
                   "execute_fsm_pipe_impl: after an arm's transitions were applied the arm loop goes on to the next arm instead of leaving (return / break / next step): later arms are still tried after a match")
+        # early exits, per kind of arm and per way of leaving (a value is returned / the step is over)
+        per_kind = {}
+        for (kd, cls), us in exits.items():
+            for nm in (kd if kd else ("arm",)):
+                per_kind.setdefault((nm, cls), set()).update(us)
         n = 0
-        for d_, us in sorted(exits.items()):
+        for (nm, cls), us in sorted(per_kind.items()):
             n += 1
             if 0 not in us and 1 in us:
                 rep.note("undecided", {"rule": "C17-R5", "what": "arm-loop exit", "why": "leaves the arm loop after a helper that applies a transition only on some paths"})
                 continue
             ok = 0 not in us
-            rep.check(ok, "C17-R5", "arm-loop-exit#%d" % n if ok else "arm-loop-left-without-transition",
+            rep.check(ok, "C17-R5", "arm-loop-exit:%s:%s" % (nm if nm == "arm" else "FsmArm" + nm, cls) if ok else "arm-loop-left-without-transition",
                       "execute_fsm_pipe_impl: the arm loop is left early (break / continue of the step loop / return) on a path on which no transition was applied: "
                       "when every guard of a matching arm fails, the later arms for the same state are never tried and the machine halts in that state",
                       "execute_fsm_pipe_impl (mech_interpreter.lib)")
         rep.floor("C17-R5", "transition applications inside the arm loop", len(applied_in_trial), 1)
-        # every kind of arm that carries a pattern is tried by the matcher and can end the search: the floors count arm KINDS (2 today: Transition, Guard), which
-        # merging the two duplicated code paths into one does not change; the raw site counts keep their old floor (2) only when the kinds cannot be told apart
-        kinds, with_pattern = arm_kind_targets(F, gb, L)
         rep.floor("C17-R5", "early exits of the arm loop examined", n, 1 if kinds else 2)
+        site_of_kind = {}
         if kinds:
             stop = {L.header} | (err if ML.returns_result(gb) else set())
-            site_blocks = {v[1] for s in sites for v in s.views if v[0] == G}
             reach = {nm: gb.reachable_from(sorted(tg), avoid=stop) for nm, tg in kinds.items()}
+            for nm in with_pattern:
+                site_of_kind[nm] = [s for s in sites if any(v[0] == G and v[1] in reach.get(nm, set()) for v in s.views)]
             rep.floor("C17-R5", "arm kinds that can leave the arm loop early", len([nm for nm in with_pattern if reach.get(nm, set()) & leave]), max(2, len(with_pattern)))
-            rep.floor("C17-R6", "arm kinds with a pattern that reach a trial match", len([nm for nm in with_pattern if reach.get(nm, set()) & site_blocks]), max(2, len(with_pattern)))
+            rep.floor("C17-R6", "arm kinds with a pattern that reach a trial match", len([nm for nm in with_pattern if site_of_kind[nm]]), max(2, len(with_pattern)))
         else:
             rep.note("undecided", {"rule": "C17-R5", "what": "arm kinds", "why": "the arm loop does not branch on the kind of arm itself (done in a helper)"})
-        # ---- bindings cleared before every match, on the environment the matcher fills
-        for s in sites:
-            ok = cleared_before(clo, s)
-            rep.check(ok, "C17-R3", "bindings-cleared-before-match:%s" % s.key,
+        # groups of trial-match sites: one per arm kind (a site shared by both kinds is judged for each), plus the sites no kind reaches
+        groups = [("FsmArm" + nm, ss) for nm, ss in site_of_kind.items() if ss]
+        covered = {id(x) for _, ss in groups for x in ss}
+        rest = [x for x in sites if id(x) not in covered]
+        if rest:
+            groups.append(("arm", rest))
+        MSG_FRESH = ("execute_fsm_pipe_impl: the environment that the pattern matcher fills is not created inside the arm loop: bindings made while testing one arm leak into the test of the "
+                     "next arm (a later arm that should be the first match can be rejected)")
+        for key, ss in groups:
+            frs = {x.fresh for x in ss}
+            matchers = sorted({x.matcher for x in ss})
+            # ---- R2: the arm's environment is fresh
+            if frs == {"undecided"}:
+                rep.note("undecided", {"rule": "C17-R2", "what": "env-fresh-per-arm", "why": "the arm environment is assigned on some paths only"})
+            else:
+                ok = "no" not in frs
+                rep.check(ok, "C17-R2", "execute_fsm_pipe_impl:env-fresh-per-arm:%s" % key if ok else "execute_fsm_pipe_impl:env-fresh-per-arm", MSG_FRESH,
+                          sample={"fn": "execute_fsm_pipe_impl", "matchers": matchers, "arm": key})
+            # ---- R3: bindings cleared before every match, on the environment the matcher fills
+            rep.check(all(x.cleared for x in ss), "C17-R3", "bindings-cleared-before-match:%s" % key,
                       "an FSM arm matches its pattern without first clearing that pattern's variables from the arm environment: bindings from the previous step become equality constraints")
         # ---- guards iterate forwards
         g = []
@@ -482,19 +500,21 @@ def run(F, rep, tier):
         for ty in g:
             rep.check("rev::Rev<" not in ty, "C17-R3", "guard-order", "guards are not tried in forward order: %s" % ty)
         rep.floor("C17-R3", "guard loops", len(g), 1)
-        # ---- R6: one obligation per trial-match site
+        # ---- R6: one obligation per arm kind and matcher
         n6 = 0
-        for s in sites:
-            if s.fresh == "undecided":
-                rep.note("undecided", {"rule": "C17-R6", "what": "trial environment", "why": "assigned on some paths only"})
+        for key, ss in groups:
+            for m in sorted({x.matcher for x in ss}):
+                sm_ = [x for x in ss if x.matcher == m]
                 n6 += 1
-                continue
-            n6 += 1
-            ok = s.fresh == "yes"
-            rep.check(ok, "C17-R6", "execute_fsm_pipe_impl:%s:%s" % (s.matcher, s.key) + ("" if ok else ":reused-across-candidates"),
-                      "execute_fsm_pipe_impl calls %s(.., &mut env) inside the loop over the arms, but the environment is created outside that loop: bindings left behind by a match that fails "
-                      "part-way are still there when the next candidate is matched and reject (or wrongly constrain) it" % s.matcher, "execute_fsm_pipe_impl (mech_interpreter.lib)",
-                      sample={"fn": "execute_fsm_pipe_impl", "matcher": s.matcher, "arm": s.key})
+                frs = {x.fresh for x in sm_}
+                if frs == {"undecided"}:
+                    rep.note("undecided", {"rule": "C17-R6", "what": "trial environment", "why": "assigned on some paths only"})
+                    continue
+                ok = "no" not in frs
+                rep.check(ok, "C17-R6", "execute_fsm_pipe_impl:%s:%s" % (m, key) + ("" if ok else ":reused-across-candidates"),
+                          "execute_fsm_pipe_impl calls %s(.., &mut env) inside the loop over the arms, but the environment is created outside that loop: bindings left behind by a match that fails "
+                          "part-way are still there when the next candidate is matched and reject (or wrongly constrain) it" % m, "execute_fsm_pipe_impl (mech_interpreter.lib)",
+                          sample={"fn": "execute_fsm_pipe_impl", "matcher": m, "arm": key})
         rep.floor("C17-R6", "trial-match sites inside candidate loops", n6, 1 if kinds else 2)
     # no unbounded loop reachable: apply_transitions & helpers are loops over slices only; check syn of the fns in state_machines
     sm = [x for x in items if x["k"] == "fn" and x["mod"].endswith("state_machines")]
@@ -527,6 +547,8 @@ def run(F, rep, tier):
         cov = [f for f in cg.bodies if f == MOD + "validate_fsm_state_coverage"]
         rep.check(bool(cov) and (any(x.endswith("validate_transition_target_state") for x in cg.reach(cov)) or targets_checked_in_loop(cg, cov[0])), "C17-R2", "transition-target-validated",
                   "the up-front validation no longer checks that every transition targets a declared state")
+    # ---- R7 (MIR): what the up-front validation CHECKS (start state named / declared, targets of unconditional and of guarded transitions)
+    validator_checks(F, rep, cg, adts)
     # K6 on the pattern helpers
     pats = [x for x in items if x["k"] == "fn" and x["mod"].endswith("patterns")]
     n = field_use(rep, "C17-R3", F, crate, pats, F.adts("mech_core.lib"), "nodes::Pattern", lambda f: "Pattern" in f[1], exclude_fns=("summarize_pattern",))
@@ -550,6 +572,134 @@ def unbounded_in(cg, item):
     for b in bodies:
         bad += ML.unbounded_loops(b)
     return bad
+
+
+NAME_RX = re.compile(r"::state_machines::state_name_from_pattern$")
+CONTAINS_RX = re.compile(r"hash::set::HashSet::<.*>::contains$")
+OPTION_PASS = re.compile(r"::(ok_or_else|ok_or|as_ref|as_deref|cloned|clone|unwrap_or_default|map|and_then|filter|take)$")
+
+
+def lift_to_root(clo, fn, blk, depth=4):
+    """blocks of the closure's root function at which the site (fn, blk) 'happens': the block itself, the block where the Rust closure it lives in is created,
+    the call of the module helper it lives in (recursively)"""
+    if fn == clo.root:
+        return {blk}
+    out = set()
+    if depth <= 0:
+        return out
+    m = re.match(r"^(.*)::\{closure#\d+\}$", fn)
+    if m and m.group(1) in clo.fns:
+        parent = m.group(1)
+        for i, st in clo.fns[parent].stmts():
+            if st.get("closure") == fn:
+                out |= lift_to_root(clo, parent, i, depth - 1)
+    for g, i, t in clo.callers.get(fn, []):
+        out |= lift_to_root(clo, g, i, depth - 1)
+    return out
+
+
+def validator_checks(F, rep, cg, adts):
+    """C17-R7, the checks themselves. Counted by WHAT is checked, not by how many copies of the error construction exist:
+       start state without a name is an error; start state that has no arm is an error; the target of every unconditional transition is tested; the target of
+       every guarded transition is tested. A test = `set.contains(name)` on a name produced by state_name_from_pattern, one outcome of which can only end in Err."""
+    from lib.mirq import Slice, switch_on_call_result
+    root = MOD + "validate_fsm_state_coverage"
+    if root not in cg.bodies:
+        return
+    clo = ML.Closure(cg, root, MOD)
+    guard_tr = None
+    for a in adts:
+        if a["name"] == "mech_core::nodes::Guard" and not a["enum"]:
+            guard_tr = [i for i, f in enumerate(a["variants"][0]["fields"]) if f[0] == "transitions"]
+    start_fields = set()
+    for a in adts:
+        if a["name"] == "mech_core::nodes::FsmImplementation" and not a["enum"]:
+            start_fields = {i for i, f in enumerate(a["variants"][0]["fields"]) if f[0] == "start"}
+
+    def strip(ty):
+        return re.sub(r"^(&(mut )?)+", "", ty)
+    unnamed = undeclared = False
+    target_checks = []      # (fn, block)
+    sources = {"unconditional": [], "guarded": []}
+    for f, b in clo.fns.items():
+        sl = Slice(b, extra_pass=OPTION_PASS)
+        okw, err = ML.nonerror_writes(b)
+        names = {}          # block of a state_name_from_pattern call -> "start" | "transition" | None
+        for i, t in calls_matching(b, NAME_RX):
+            kind = None
+            if t["args"] and isinstance(t["args"][0], list):
+                pl = ML.pointee(b, t["args"][0])
+                m = re.match(r"^\*\.(\d+)$", pl[1]) if pl else None
+                if m and strip(b.locals[pl[0]]) == "mech_core::nodes::FsmImplementation" and int(m.group(1)) in start_fields:
+                    kind = "start"
+                elif any("nodes::Transition" in b.locals[l] and "Vec<" not in b.locals[l] for l in sl.locals_feeding(t["args"][0])):
+                    kind = "transition"
+            names[i] = kind
+        contains = [(i, t) for i, t in calls_matching(b, CONTAINS_RX) if (t.get("ga") or [""])[0] == "alloc::string::String"]
+        cblocks = {i for i, t in contains}
+        for i, t in contains:
+            if len(t["args"]) < 2:
+                continue
+            from_names = {r[2] for r in sl.roots(t["args"][1]) if r[0] == "call" and NAME_RX.search(r[1])}
+            sw = switch_on_call_result(b, i, t)
+            fails = False
+            if sw is not None:
+                for tgt in (sw[1], sw[2]):
+                    if tgt is None:
+                        continue
+                    r = b.reachable_from([tgt])
+                    if (r & err) and not (r & okw):
+                        fails = True
+            if not fails:
+                continue
+            for nb in from_names:
+                if names.get(nb) == "start":
+                    undeclared = True
+                elif names.get(nb) == "transition":
+                    target_checks.append((f, i))
+        for nb, kind in names.items():
+            if kind == "start" and (b.reachable_from([nb], avoid=cblocks) & err):
+                unnamed = True
+        # where the transitions that are to be checked come from
+        used = set()        # locals that are read somewhere (a pattern binding that is never used enumerates nothing)
+        for blk in b.blocks:
+            for st in blk["s"]:
+                used |= {o[0] for o in (st.get("src") or []) if isinstance(o, list)}
+            tt = blk["t"]
+            if tt["k"] == "call":
+                used |= {o[0] for o in tt["args"] if isinstance(o, list)}
+            elif tt["k"] == "switch" and isinstance(tt.get("on"), list):
+                used.add(tt["on"][0])
+        for i, blk in enumerate(b.blocks):
+            ops = []
+            for st in blk["s"]:
+                if st["d"][1] == "" and st["d"][0] not in used and st["d"][0] != 0:
+                    continue
+                ops += [o for o in (st.get("src") or []) if isinstance(o, list)]
+            if blk["t"]["k"] == "call":
+                ops += [o for o in blk["t"]["args"] if isinstance(o, list)]
+            for l, proj in ops:
+                ty = strip(b.locals[l])
+                if ty == "mech_core::nodes::FsmArm" and "@Transition.1" in proj:
+                    sources["unconditional"].append((f, i))
+                elif ty == "mech_core::nodes::Guard" and guard_tr and re.match(r"^\**\.%d($|[^0-9])" % guard_tr[0], proj):
+                    sources["guarded"].append((f, i))
+    rb = clo.fns[root]
+    checks_at = set()
+    for f, i in target_checks:
+        checks_at |= lift_to_root(clo, f, i)
+    rep.check(unnamed, "C17-R7", "start-state:unnamed-rejected",
+              "validate_fsm_state_coverage no longer rejects a start pattern that does not name a state (no Err exit between state_name_from_pattern(start) and the membership test)")
+    rep.check(undeclared, "C17-R7", "start-state:undeclared-rejected",
+              "validate_fsm_state_coverage no longer tests the start state against the set of states that have an arm (with an Err outcome)")
+    for kind in ("unconditional", "guarded"):
+        at = set()
+        for f, i in sources[kind]:
+            at |= lift_to_root(clo, f, i)
+        ok = bool(at) and bool(checks_at) and bool(rb.reachable_from(sorted(at)) & checks_at)
+        rep.check(ok, "C17-R7", "transition-targets-checked:%s" % kind,
+                  "validate_fsm_state_coverage does not test the targets of the %s transitions against the set of states that have an arm (%s)" % (
+                      kind, "the transitions of that kind are never enumerated" if not at else "no membership test with an Err outcome on a transition's target" if not checks_at else "the test is not reached from where they are enumerated"))
 
 
 def guard_sites(clo, body, rx, depth=2):
